@@ -305,6 +305,37 @@ func VerifC17TwoRuns(h *verifh.H) {
 	res := &jobResult{}
 	h.Assert(hub.Store.GetObject(server.JobResultIndex, "job-1", res) == nil && res.ID == "job-1", "run result stored")
 	h.Assert((res.LastError != "") == reject1, "the first run's recorded outcome carries the error iff an entity was rejected in it :: lastError="+res.LastError)
+	switch extra := h.Choice("extra", 3); {
+	case extra == 1 && reject1:
+		// before the reRun timer of the failed run fires, another trigger runs the job and fails
+		// again: however the failures and timers interleave, the job is re-executed at most
+		// maxRetries (1) times in all
+		src.batches = append(src.batches, []*server.Entity{ents[2]})
+		sink.failing[ents[2].ID] = true
+		j.Run()
+		reruns := 0
+		for k := 0; k < 4; k++ {
+			if !h.FireTimer("rerun", 2500*time.Millisecond) {
+				break
+			}
+			reruns++
+		}
+		h.Assert(reruns <= 1, "a job with maxRetries 1 is re-executed at most once, also when a second failing run ends while the first retry is waiting :: reruns="+strconv.Itoa(reruns))
+		h.Assert(len(runner.raffle.runningJobs) == 0 && runner.raffle.ticketsIncr == 1, "run slot released")
+		h.Observe("second", true)
+		return
+	case extra == 2 && reject1:
+		// the job is deleted while its reRun timer is pending; the timer then fires (or not)
+		h.Assert(hub.Store.StoreObject(server.JobConfigIndex, "job-1", cfg) == nil, "definition stored")
+		h.Assert(sch.DeleteJob("job-1") == nil, "delete accepted")
+		_ = h.FireTimer("rerun", 2500*time.Millisecond)
+		h.Assert(len(runner.raffle.runningJobs) == 0, "a deleted job leaves no run registered as running")
+		h.Assert(runner.raffle.ticketsIncr == 1 && runner.raffle.ticketsFull == 1, "a deleted job leaves every ticket in the pool :: incr="+strconv.Itoa(runner.raffle.ticketsIncr))
+		h.Observe("second", false)
+		return
+	case extra != 0:
+		h.Assume(false)
+	}
 	// before the second run one more entity arrives; the one rejected before is not offered again
 	// (the token moved past it), the new one is accepted or rejected
 	src.batches = append(src.batches, []*server.Entity{ents[2]})
